@@ -123,6 +123,7 @@ class Interp:
         self.max_depth = max_depth
         self.loop_bound = loop_bound
         self.steps = 0
+        self.serial = 0
 
     # -- values of places / operands
     def place_val(self, env, pl):
@@ -273,6 +274,25 @@ class Interp:
             if h is not None:
                 return h, args
         tr = c.get('trait') or ''
+        # std Vec model (path-local, kept in env): the last element after push(v, x) is x until v is handed out mutably again
+        if not c.get('local'):
+            vl = env.get('__vec_last') or {}
+            if name == 'push' and len(args) == 2 and 'vec::Vec' in d:
+                nv = dict(vl)
+                nv[args[0]] = args[1]
+                env['__vec_last'] = nv
+            elif name in ('last', 'last_mut') and len(args) == 1 and args[0] in vl:
+                return SOME(vl[args[0]]), args
+            elif vl and name not in ('len', 'is_empty', 'deref', 'deref_mut', 'iter', 'get', 'first', 'last', 'last_mut', 'as_slice', 'clone'):
+                mut_args = set()
+                for a, av in zip(t['args'], args):
+                    pl = op_place(a)
+                    if pl is not None and not pl['p'] and fn.locals[pl['l']]['ty'].startswith('&mut'):
+                        mut_args.add(av)
+                if any(k in mut_args for k in vl):
+                    env['__vec_last'] = {k: v for k, v in vl.items() if k not in mut_args}
+            if name in ('unwrap', 'expect') and args and is_adt(args[0], 'option::Option', 'Some') and 'option::Option' in d:
+                return args[0][4][0], args
         # structural equality
         if path_endswith(tr, 'cmp::PartialEq') and name in ('eq', 'ne') and len(args) == 2:
             a, b = args
@@ -323,6 +343,13 @@ class Interp:
         nm = r or d
         if name in TYPE_DIRECTED and c.get('args'):
             nm = '%s::<%s>' % (nm, c['args'][-1])
+        # calls through a mutable reference are not pure: each call instance gets its own term
+        for a in t['args']:
+            pl = op_place(a)
+            if pl is not None and not pl['p'] and fn.locals[pl['l']]['ty'].startswith('&mut'):
+                self.serial += 1
+                nm = '%s#%d' % (nm, self.serial)
+                break
         return ('app', nm, tuple(args)), args
 
     # -- function evaluation: all paths
